@@ -5,6 +5,7 @@ R18.2 shape agreement: each declared event, given a payload of its declared
       shape, still reaches an accepting path, and every payload read reached by
       it lies inside the declared payload
 R18.3 catalogue self-consistency (what model_evspec_init would reject)
+R18.4 the decoder's argument layout (ev_spec.c) is the packed wire layout the handlers use
 """
 import json
 import os
@@ -48,10 +49,80 @@ def payload_reads(f):
     return out
 
 
+def check_decoder_layout(ctx):
+    """R18.4: the decoder (ev_spec.c) lays a signature's arguments out exactly as the events are written and as the
+    handlers read them: packed, in order, each with the width of its type, after the 4-byte size of a jumbo."""
+    from ovsa import absint, effects
+    from ovsa.absint import INT, NULL, PTR, TOP
+    prog = ctx.prog
+    eff = effects.Effects(prog)
+    ES = "src/emu/ev_spec.c"
+    ctx.rule("R18.4", "ev_spec.c's parse_arg gives the k-th argument of a signature the offset at which the previous "
+             "ones end (no padding) and the width of its type (u8/i8 1, u16/i16 2, u32/i32 4, u64/i64 8, str: "
+             "rest), and parse_args starts at 0, or at 4 for a jumbo: the layout of the wire format, which the "
+             "handlers and ovnidump rely on")
+
+    def F(rec, field):
+        return ((rec, field),)
+    pa = prog.fn("parse_arg", ES)
+    width = {"u8": 1, "i8": 1, "u16": 2, "i16": 2, "u32": 4, "i32": 4, "u64": 8, "i64": 8, "str": 0}
+    n = 0
+    for tname, w in sorted(width.items()):
+        for before in (0, 1, 3, 4, 5, 12):
+            for k in (0, 2):
+                toks = [("str", tname), ("str", "arg")]
+                cnt = [0]
+
+                def s_tok(ex_, st, a, f, e, toks=toks, cnt=cnt):
+                    i = cnt[0]
+                    cnt[0] += 1
+                    return [((toks[i] if i < len(toks) else NULL), {})]
+
+                def s_strcmp(ex_, st, a, f, e):
+                    if a[0][0] == "str" and a[1][0] == "str":
+                        return [(INT(0 if a[0][1] == a[1][1] else 1), {})]
+                    return None
+                ex = absint.Explorer(prog, effects=eff, loop_bound=12, inline=lambda nm, d: nm == "parse_type",
+                                     summaries={"strtok_r": s_tok, "strcmp": s_strcmp,
+                                                "snprintf": lambda ex_, st, a, f, e: [(INT(3), {})],
+                                                "__builtin___snprintf_chk": lambda ex_, st, a, f, e: [(INT(3), {})]})
+                store = {("SPEC", F("ev_spec", "nargs")): INT(k), ("SPEC", F("ev_spec", "payload_size")): INT(before)}
+                outs = [o for o in ex.run(pa, [PTR("SPEC"), ("str", tname + " arg")], store) if o.kind == "ret"]
+                acc = [o for o in outs if o.ret == INT(0)]
+                argp = F("ev_spec", "args") + (k,)
+                inst = "parse_arg:%s:after-%d-bytes:arg%d" % (tname, before, k)
+                n += 1
+                good = bool(acc) and len(acc) == len(outs)
+                got = None
+                for o in acc:
+                    got = (o.store.get(("SPEC", argp + F("ev_arg", "offset"))), o.store.get(("SPEC", argp + F("ev_arg", "size"))),
+                           o.store.get(("SPEC", F("ev_spec", "payload_size"))), o.store.get(("SPEC", F("ev_spec", "nargs"))))
+                    if got != (INT(before), INT(w), INT(before + w), INT(k + 1)):
+                        good = False
+                ctx.check(good, "R18.4", inst, pa.loc(),
+                          "argument of type %s following %d payload bytes gets (offset, size, new payload size, nargs) = %s; "
+                          "the packed wire layout is (%d, %d, %d, %d)" %
+                          (tname, before, tuple(str(x) for x in got) if got else "no accepting path",
+                           before, w, before + w, k + 1))
+    pas = prog.fn("parse_args", ES)
+    for jumbo in (0, 1):
+        ex = absint.Explorer(prog, effects=eff, loop_bound=3, summaries={"strtok_r": lambda ex_, st, a, f, e: [(NULL, {})]})
+        outs = [o for o in ex.run(pas, [PTR("SPEC"), ("str", "()")], {("SPEC", F("ev_spec", "is_jumbo")): INT(jumbo)})
+                if o.kind == "ret" and o.ret == INT(0)]
+        want = 4 if jumbo else 0
+        ctx.check(bool(outs) and all(o.store.get(("SPEC", F("ev_spec", "payload_size"))) == INT(want) for o in outs),
+                  "R18.4", "parse_args:jumbo=%d:first-offset" % jumbo, pas.loc(),
+                  "the first argument of a %s event is placed at %s, expected %d" %
+                  ("jumbo" if jumbo else "normal",
+                   sorted({str(o.store.get(("SPEC", F("ev_spec", "payload_size")))) for o in outs}), want))
+    ctx.need(n >= 100, "R18.4: %d cases" % n)
+
+
 def run(ctx):
     prog = ctx.prog
     sp = spec()
     ms = models.discover(prog)
+    check_decoder_layout(ctx)
     ctx.rule("R18.1", "for every model: the set of (category,value) codes declared in model_evlist equals the "
              "set for which the model's event hook can reach a successful return, computed by abstract "
              "interpretation of the dispatch over all 65536 pairs; exemptions: value-agnostic categories and "
